@@ -6,6 +6,7 @@ import Driver.TableSuite
 import Driver.SchedSuite
 import Driver.WSSuite
 import Driver.RecSuite
+import Driver.SSetSuite
 /-!
   Model driver.  usage: driver <suite> < ops-file
   Reads lines; `case N` is echoed (and resets suite state), `op ...` produces
@@ -48,5 +49,6 @@ def main (args : List String) : IO UInt32 := do
   | ["sched"] => loopState stdin stdout Sched.stepAll (default : Sched.S); return 0
   | ["ws"] => loopState stdin stdout WSS.step (default : WSS.S); return 0
   | ["rec"] => loopState stdin stdout RecS.step (default : RecS.S); return 0
+  | ["sset"] => loopState stdin stdout SSetS.step (default : SSetS.S); return 0
   | ["pmap"] => loopState stdin stdout PMapS.step (default : PMapS.S); return 0
   | _ => IO.eprintln "usage: driver <suite>"; return 2
